@@ -222,7 +222,10 @@ def parent_main(prop, tier, seed):
     for sh in range(nshards):
         out = tmp / f"{sh}.json"
         err = open(tmp / f"{sh}.err", "w")
-        p = subprocess.Popen([PY, "-X", "faulthandler", "-m", "smgmon", "--worker", prop, tier, str(seed), str(sh), str(nshards), str(out)], env=child_env(), cwd=VERIF, stdout=err, stderr=err)
+        launcher = [PY, "-X", "faulthandler", "-m"]
+        if os.environ.get("SMG_COVERAGE"):  # tools/coverage_report.sh: line/branch coverage of the library under the monitors' workloads
+            launcher += ["coverage", "run", "-p", "--branch", f"--data-file={os.environ['SMG_COVERAGE']}", "--source=stereomolgraph", "-m"]
+        p = subprocess.Popen([*launcher, "smgmon", "--worker", prop, tier, str(seed), str(sh), str(nshards), str(out)], env=child_env(), cwd=VERIF, stdout=err, stderr=err)
         procs.append((sh, p, out, err))
     results, dead = [], []
     for sh, p, out, err in procs:
